@@ -451,6 +451,7 @@ pub fn enumerate_branches(
             ops.push(Op::AttrClear { e: *a });
             ops.push(Op::NsClear { e: *a });
             ops.push(Op::NsInsert { e: *a, prefix: "zz".into(), uri: "urn:zz".into() });
+            ops.push(Op::AppendNamespace { p: *a, prefix: "zz".into(), uri: "urn:zz".into() });
         }
     }
     let scratch_hash = hashseam::get();
